@@ -22,7 +22,7 @@ LEVEL_TEXT = ('Function-level deductive proof on the real code: for each of the 
 LEVEL_NOTE = ('Not under contract: enip_srv_tcp receive loop, logix.process, UCMM.request (Register/Unregister, SendRRData unwrap) and '
               'Connection_Manager.request - bounded tier only. Assumed callee contracts as in C05 (resolve/lookup/route/produce).')
 TECHNIQUE = 'contracts on Logix.request / Message_Router.request (one reply, reply bit, no escaping exception), VCs from the real AST, z3/cvc5; bounded pipelined sessions over TCP'
-TRUSTED = ['assumed callee contracts: resolve, lookup, route, produce', 'the session layer (enip_srv_tcp, logix.process, UCMM) is only exercised in the bounded tier']
+TRUSTED = ['assumed callee contracts: resolve, lookup, route, produce', 'is_uerr: the item length read from the data artifact is a free integer; the source by the peeking contracts', 'envelope frame: AST-decided (stores through callees that are handed data.enip - parser.produce, enip_format, CM.request on session end - are not followed)', 'producer contracts shared with C01 carry its assumptions', 'the session layer (enip_srv_tcp, logix.process, UCMM) is only exercised in the bounded tier']
 ASSUMPTIONS = ['single connection at a time in the bounded tier; schedules are not enumerated']
 
 C06_LABELS = ('reply-bit: the reply service is the request service | 0x80', 'returns-true', 'one-reply-payload-produced',
@@ -201,7 +201,7 @@ def replay_envelope(model, obligation):
 
 def contracts(repo):
     from pyvc.spec import Custom as _Custom
-    items = [register_spec(), is_uerr_spec(), _Custom('envelope_frame', envelope_frame, replay=replay_envelope,
+    items = [register_spec(), is_uerr_spec(), _Custom('envelope_frame', envelope_frame, replay=replay_envelope, targets=[('server/enip/ucmm.py', 'UCMM.request'), ('server/enip/logix.py', 'process')],
                                       note='frame condition on the AST of UCMM.request and logix.process: the copied encapsulation header fields are not stored into (session handle: once, in Register Session)')]
     for sp in LC.request_specs():
         sp.ensures = [(l, t) for l, t in sp.ensures if l in C06_LABELS]
@@ -217,7 +217,7 @@ def contracts(repo):
     from pyvc.spec import Custom
     # a write of a type the tag cannot hold is refused: otherwise a stored value that does not fit the tag's type makes every later read of
     # it fail outside the reply path (no reply frame for that request)
-    items.append(Custom('well_formed', C05.well_formed, replay=C05.replay_cell,
+    items.append(Custom('well_formed', C05.well_formed, replay=C05.replay_cell, targets=[('server/enip/logix.py', 'Logix.request')],
                         note='allowed_tag_types read from the AST of Logix.request (shared with C05): every accepted (tag type, request type) pair stores values the tag type can produce'))
     return items
 
@@ -242,6 +242,20 @@ def session(ops, depth, multiple, tags, max_bytes=None, fragment=False):
             out.append(('session ended', type(e).__name__, str(e)[:60]))
         errs = list(srv.errors)
     return out, errs
+
+
+def read_exact(s, n):
+    """up to n bytes from a socket: fewer when the peer closes, resets or stays silent (the caller reports what is missing)"""
+    buf = b''
+    try:
+        while len(buf) < n:
+            c = s.recv(n - len(buf))
+            if not c:
+                break
+            buf += c
+    except OSError:
+        pass
+    return buf
 
 
 def raw_session(frames, tags):
@@ -324,9 +338,13 @@ def bounded(tier, seed):
                 import socket
                 s = socket.create_connection(('127.0.0.1', srv.port), timeout=3.0)
                 s.sendall(reg)
-                hdr = b''
-                while len(hdr) < 28:
-                    hdr += s.recv(28 - len(hdr))
+                hdr = read_exact(s, 28)
+                if len(hdr) < 28:
+                    # no (complete) Register Session reply on this connection: reported by the first check above on its own connection; nothing to pipeline
+                    violations.append(dict(key='register session (connection %d of the pipelined runs)' % n, observed='%d of 28 reply bytes' % len(hdr),
+                                           required='one reply with a non-zero session handle'))
+                    s.close()
+                    continue
                 sess = struct.unpack('<I', hdr[4:8])[0]
                 reqs = []
                 for i in range(n):
@@ -344,7 +362,10 @@ def bounded(tier, seed):
                     us = bytes([0x52, 2, 0x20, 6, 0x24, 1, 5, 157]) + struct.pack('<H', len(cip)) + cip + (b'\0' if len(cip) % 2 else b'') + bytes([1, 0, 1, 0])
                     cpf = struct.pack('<IHH', 0, 5, 2) + struct.pack('<HH', 0, 0) + struct.pack('<HH', 0xb2, len(us)) + us
                     reqs.append((svc, frame(0x6f, cpf, session=sess, context=struct.pack('<Q', 1000 + i))))
-                s.sendall(b''.join(f for _, f in reqs))
+                try:
+                    s.sendall(b''.join(f for _, f in reqs))
+                except OSError:
+                    pass                   # the server closed early: it shows as missing replies below
                 buf = b''
                 got = []
                 s.settimeout(2.0)
@@ -409,11 +430,12 @@ def bounded(tier, seed):
     with netsim.Server(tags) as srv:
         s = socket.create_connection(('127.0.0.1', srv.port), timeout=3.0)
         s.sendall(wire.register())
-        hdr = b''
-        while len(hdr) < 28:
-            hdr += s.recv(28 - len(hdr))
-        sess = struct.unpack('<I', hdr[4:8])[0]
-        s.sendall(wire.unregister(sess))
+        hdr = read_exact(s, 28)
+        sess = struct.unpack('<I', hdr[4:8])[0] if len(hdr) >= 8 else 0
+        try:
+            s.sendall(wire.unregister(sess))
+        except OSError:
+            pass
         s.settimeout(1.5)
         try:
             tail = s.recv(100)
